@@ -18,6 +18,15 @@ SCOPE = {
                                                        "is_valid_type_definition", "set_node_type", "insert_reference",
                                                        "has_reference", "find_node"],
     "lib/src/server/address_space/references.rs": ["insert", "insert_reference", "has_reference"],
+    # `create_node` builds the node from the client's attributes
+    "lib/src/server/address_space/object.rs": ["from_attributes"],
+    "lib/src/server/address_space/variable.rs": ["from_attributes"],
+    "lib/src/server/address_space/method.rs": ["from_attributes"],
+    "lib/src/server/address_space/object_type.rs": ["from_attributes"],
+    "lib/src/server/address_space/variable_type.rs": ["from_attributes"],
+    "lib/src/server/address_space/reference_type.rs": ["from_attributes"],
+    "lib/src/server/address_space/data_type.rs": ["from_attributes"],
+    "lib/src/server/address_space/view.rs": ["from_attributes"],
 }
 
 def strip(src):
